@@ -33,7 +33,7 @@ def decode_path_units(tier):
 
 
 # obligations of the SocketWrapper contracts that speak about progress / completeness, not about WHICH bytes are handed out
-SOCKET_LIVENESS = ("variant_", "short_only_after_failed_receive", "true_means_segment_appended", "no_complete_chunk_left_in_partial",
+SOCKET_LIVENESS = ("variant_", "faultfree_", "short_only_after_failed_receive", "true_means_segment_appended", "no_complete_chunk_left_in_partial",
                    "ends_at_first_LF_or_stopped_on_empty_read", "recv.pre.bufsize_positive")
 
 
